@@ -162,8 +162,9 @@ Proof.
   - destruct (ie_len e <? var_len) eqn:L.
     + rewrite W in *. cbn [negb]. injection E as <-. now apply copy_at_mid.
     + now apply encode_var_at_spec.
-  - bool_hyps. match goal with H : length m = _ |- _ => rewrite H in E end.
-    cbn [Nat.eqb] in E. injection E as <-. now apply copy_at_mid.
+  - bool_hyps. match goal with H : length m = _ |- _ => rewrite H in E; cbn [elem_len]; rewrite H end.
+    match goal with H : ie_len e = _ |- _ => rewrite H end.
+    cbn [Nat.eqb] in E. injection E as <-. cbn [N.to_nat Pos.to_nat Pos.iter_op Nat.add Nat.eqb negb]. now apply copy_at_mid.
   - now apply encode_var_at_spec.
   - rewrite E. now apply copy_at_mid.
   - rewrite E. now apply copy_at_mid.
